@@ -24,6 +24,7 @@ func (e *Engine) frameObl(name string, props []string, ok bool, pos, desc, detai
 func (e *Engine) addFrameObligations() {
 	e.addGlobalInvObligations()
 	e.addAssignsObligations()
+	e.addFramePropObligations()
 }
 
 // addAssignsObligations: a contract's `assigns` clause must cover the transitive write set computed by the frame pass
